@@ -14,7 +14,7 @@ META = dict(
                 "DAG pattern with symbolic real weights (any sign); results are compared with the definitions "
                 "(edge relations, directed reachability, the set of all simple semi-directed node sequences, "
                 "undirected connectivity).",
-    bounds=dict(quick="binary PDAGs p <= 3 all, p = 4 with <= 4 edges; weighted DAGs p <= 4; all nodes and node pairs; separates: all pairwise-disjoint (S, A, B) for p <= 3, singletons A, B with all S at p = 4; overlapping triples for the exception",
+    bounds=dict(quick="binary PDAGs p <= 3 all, p = 4 with <= 4 edges; weighted DAGs p <= 4; all nodes and node pairs; separates: all pairwise-disjoint (S, A, B) for p <= 3, singletons A, B with all S at p = 4; overlapping triples for the exception; wide: 3-node patterns embedded at nodes 11,1,9 of a 12-node graph (4-node weighted DAGs in the thorough tier)",
                 thorough="binary PDAGs p <= 4 all (3,608); weighted DAGs p <= 5 with <= 6 edges"),
     outside=["recursion depth (large p)", "PDAGs whose directed part is cyclic"],
     stubs=["numpy -> symnp"],
@@ -53,7 +53,8 @@ def simple_paths(nz, fro, to):
     """all simple node sequences fro..to following directed edges forwards or undirected edges"""
     p, d, u, a = rel(nz)
     res = []
-    others = [x for x in range(p) if x != fro and x != to]
+    # an isolated node cannot lie on a path, so candidate sequences are taken over non-isolated nodes only
+    others = [x for x in range(p) if x != fro and x != to and any(a(x, y) for y in range(p))]
     if fro == to:
         return [[fro]]
     for k in range(len(others) + 1):
@@ -77,9 +78,17 @@ def chain_comp(nz, i):
     return seen
 
 
-def _sets(p, tier_small):
+def _sets(p, tier_small, pat=None):
     """(S, A, B) triples: all pairwise disjoint assignments for small p, else singletons"""
     out = []
+    if p > 5 and pat is not None:
+        U = I.universe(pat)
+        for a in U:
+            for b in U:
+                if a != b:
+                    for S in I.subsets([x for x in U if x not in (a, b)]):
+                        out.append((set(S), {a}, {b}))
+        return out
     if tier_small:
         for lab in itertools.product((0, 1, 2, 3), repeat=p):
             S = {i for i in range(p) if lab[i] == 1}
@@ -146,7 +155,7 @@ def _checks(u, log, M, pat, p, isdag):
     else:
         cl.append(('transitive_closure raises ValueError iff the graph is not a DAG', r == ('exc', 'ValueError')))
     small = p <= 3
-    for (S, A, B) in _sets(p, small):
+    for (S, A, B) in _sets(p, small, pat):
         r = log.call(u, 'separates', set(S), set(A), set(B), M)
         want = all(any(x in S for x in path) for a_ in A for b_ in B for path in simple_paths(nz, a_, b_))
         cl.append(('separates(%s,%s,%s)' % (sorted(S), sorted(A), sorted(B)), r[0] == 'ok' and bool(r[1]) == want))
@@ -194,6 +203,11 @@ def obligations(tier):
                              "all DAG patterns on %d nodes with symbolic real weights" % p, expect=('dag',), weight=p))
     ob.append(Obligation('weighted_dag_p4', h_weighted, I.dag_pair_cubes(4, 3),
                          "all DAG patterns on 4 nodes with symbolic real weights", expect=('dag',), weight=20))
+    wl = [11, 1, 9] if tier == 'quick' else [11, 1, 9, 0]
+    ob.append(Obligation('weighted_dag_wide_p12', h_weighted, I.embed_cubes(12, wl, 3, dag=True),
+                         "all %d-node DAG patterns with symbolic weights embedded at nodes %s of a 12-node graph" % (len(wl), wl), expect=('dag',), weight=60))
+    ob.append(Obligation('binary_pdag_wide_p12', h_binary, I.embed_cubes(12, [11, 1, 9], 1),
+                         "all 3-node binary PDAGs embedded at nodes 11, 1, 9 of a 12-node graph", expect=('dag', 'pdag'), weight=20))
     if tier == 'quick':
         ob.append(Obligation('binary_pdag_p4_le4', h_binary, I.pair_cubes(4, 2, dict(max_edges=4)),
                              "binary PDAGs on 4 nodes with at most 4 edges", expect=('dag', 'pdag'), weight=20))
@@ -248,7 +262,7 @@ def replay(rec):
                 bad.append('transitive_closure accepted a non-DAG')
             except ValueError:
                 pass
-        for (S, A, B) in _sets(p, p <= 3):
+        for (S, A, B) in _sets(p, p <= 3, [[1 if nz[i][j] else 0 for j in range(p)] for i in range(p)]):
             want = all(any(x in S for x in path) for a_ in A for b_ in B for path in simple_paths(nz, a_, b_))
             chk('separates(%s,%s,%s)' % (sorted(S), sorted(A), sorted(B)), bool(u.separates(set(S), set(A), set(B), P)), want)
         if p >= 2:
